@@ -1530,6 +1530,25 @@ Proof.
   intros Ha Hb Hinj. unfold wkey. rewrite (sanitize_digest _ Ha), (sanitize_digest _ Hb). exact Hinj.
 Qed.
 
+(** submission: a job started in the workspace whose output files are plain
+    names (no '/', not "", ".", "..") keeps them in the workspace -- for every
+    workspace string *)
+Lemma submit_model_ok (ws : str) (names : list str) :
+  Forall (fun n => ~ In SLASH n /\ n <> [] /\ n <> dot /\ n <> dotdot) names ->
+  submit_ok (model_sobs ws names) = true.
+Proof.
+  intro H. unfold submit_ok, model_sobs. simpl. apply andb_true_iff. split.
+  - apply npath_eqb_iff. reflexivity.
+  - apply forallb_forall. intros n Hn. rewrite Forall_forall in H.
+    destruct (H n Hn) as [K1 K2]. unfold inside. rewrite npath_join2 by assumption.
+    apply (np_inside_ext (npath ws) [n]). discriminate.
+Qed.
+
+(** and a job whose working directory nothing fixes is refuted by the monitor *)
+Lemma submit_nocwd_refuted (ws : str) (names : list str) :
+  submit_ok (mksobs ws None names) = false.
+Proof. reflexivity. Qed.
+
 (* ------------------------------------------------------------------------ *)
 (** * Part F -- boolean hygiene; refutations outside it *)
 
